@@ -91,8 +91,25 @@ def observe_from_inside(w, me):
     obs()
 
 
+class GletAlwaysFalsy(greenlet.greenlet):
+    """a subclass with a truth value of its own (gevent's Greenlet has one): what state a greenlet is in is not for its
+    __bool__ to say"""
+
+    def __bool__(self):
+        return False
+
+
+class GletAlwaysTruthy(greenlet.greenlet):
+    def __bool__(self):
+        return True
+
+
+GLET_CLASSES = {"plain": greenlet.greenlet, "falsy": GletAlwaysFalsy, "truthy": GletAlwaysTruthy}
+
+
 def run_chain(req):
     ir = req["ir"]
+    GL = GLET_CLASSES[ir.get("glet_class", "plain")]
     w = World(ir)
     chain = ir["chain"]
     n = len(chain)
@@ -104,7 +121,7 @@ def run_chain(req):
             def innermost():
                 w.shadow[k].append(sys._getframe())
                 if k + 1 < n:
-                    g = greenlet.greenlet(body(k + 1))   # parent = the current greenlet
+                    g = GL(body(k + 1))   # parent = the current greenlet
                     w.glets[k + 1] = g
                     g.switch()
                 else:
@@ -123,16 +140,16 @@ def run_chain(req):
                 w.shadow["sib"].append(sys._getframe())
                 return w.main.switch("sib-parked")
             return w.calls("sib", ir["sibling"] - 1, park)
-        s = greenlet.greenlet(sib_body)
+        s = GL(sib_body)
         w.glets["sib"] = s
         s.switch()
-    w.glets["unstarted"] = greenlet.greenlet(lambda: None)
+    w.glets["unstarted"] = GL(lambda: None)
     w.shadow["unstarted"] = []
-    d = greenlet.greenlet(lambda: 1)
+    d = GL(lambda: 1)
     d.switch()
     w.glets["dead"] = d
     w.shadow["dead"] = []
-    g0 = greenlet.greenlet(body(0))
+    g0 = GL(body(0))
     w.glets[0] = g0
     g0.switch()
     # everything is suspended now; look from the main greenlet
@@ -388,7 +405,9 @@ def run_greenback(req):
             async def runner():
                 state["task"] = trio.lowlevel.current_task()
                 portal = req.get("portal", "ensure")
-                if portal == "ensure":
+                if portal == "bestow":
+                    await fn()       # (no portal yet: depth 0 only; the portal is bestowed from outside while it is blocked)
+                elif portal == "ensure":
                     await greenback.ensure_portal()
                     await fn()
                 elif portal == "run":
@@ -398,6 +417,10 @@ def run_greenback(req):
             n.start_soon(runner)
             await trio.testing.wait_all_tasks_blocked(0.01)
             out["warnings"] = []
+            if req.get("portal") == "bestow":
+                # the blocked task is given a portal from outside: until its next step its coroutine is greenback's shim,
+                # parked at its first yield, and its own coroutine hangs below that
+                greenback.bestow_portal(state["task"])
             # (also when the await_ the task is parked in was made by a greenlet started further down, spawn > 0: greenback
             # resumes that one, and the task's stack goes through it)
             with warnings.catch_warnings(record=True) as w:
